@@ -36,8 +36,10 @@ Isolation(s, r) ==
          \* a rejected attempt leaves memory and devices untouched
          /\ r.res \in {"AccessViolation", "PrivilegeViolation"} =>
                (p.memdiff = <<>> /\ p.kbd = s.kbd /\ p.disp = s.disp)
-         \* no RTI executes in user mode
-         /\ (InUser(s.pc) /\ Rd(s, s.pc).v = 32768) => r.res = "PrivilegeViolation"
+         \* no RTI executes in user mode (in strict mode a word that is not fully initialized is not
+         \* decoded at all: the step stops with StrictPCCurrUninit before there is an instruction)
+         /\ (InUser(s.pc) /\ Rd(s, s.pc).v = 32768 /\ ~(Strict(s) /\ ~IsInit(Rd(s, s.pc))))
+               => r.res = "PrivilegeViolation"
     ELSE \* entered supervisor mode (trap, interrupt or exception entry): beyond the
          \* user-mode fetch/operand accesses only the vector entry and the two
          \* pushes on the supervisor stack are touched, and devices are untouched
@@ -191,24 +193,29 @@ UserMemUnchanged(s) ==
   \A a \in (DOMAIN s.memw) \cup (DOMAIN s.mark.memw) : InUser(a) => Rd(s, a) = RdMark(s, a)
 RegsUnchangedExcept(s, ex) == \A i \in 1..8 : (i - 1) \in ex \/ s.reg[i] = s.mark.reg[i]
 
-TrapContract(s, vect, prompt_addr) ==
-  LET m == s.mark  r0 == m.reg[1].v IN
+\* `h`: the character printed by the interrupt handler of the run (-1: none).  A handler that prints through
+\* the OS while a routine is interrupted must not disturb it: the output of the routine is the display
+\* without the handler's own characters (the harness keeps `h` out of strings, keys and R0).
+TrapContract(s, vect, prompt_addr, h) ==
+  LET m == s.mark  r0 == m.reg[1].v
+      sdisp == IF h < 0 THEN s.disp ELSE SelectSeq(s.disp, LAMBDA x : x # h)
+  IN
   (IF \/ s.pc # Wrap(m.pc + 1) THEN {"trap-return-pc"} ELSE {})
   \cup (IF s.psr # m.psr THEN {"trap-psr"} ELSE {})            \* condition codes, privilege, priority
   \cup (IF UserMemUnchanged(s) THEN {} ELSE {"trap-user-memory"})
   \cup (IF s.ssp = m.ssp THEN {} ELSE {"trap-ssp"})
   \cup (CASE vect = 32 ->      \* GETC
-               (IF m.kbd # <<>> /\ s.reg[1] = Init16(Head(m.kbd)) /\ s.kbd = Tail(m.kbd) /\ s.disp = m.disp
+               (IF m.kbd # <<>> /\ s.reg[1] = Init16(Head(m.kbd)) /\ s.kbd = Tail(m.kbd) /\ sdisp = m.disp
                    /\ RegsUnchangedExcept(s, {0}) THEN {} ELSE {"trap-getc"})
           [] vect = 33 ->      \* OUT / PUTC
-               (IF s.disp = m.disp \o <<r0 % 256>> /\ s.kbd = m.kbd /\ RegsUnchangedExcept(s, {}) THEN {} ELSE {"trap-out"})
+               (IF sdisp = m.disp \o <<r0 % 256>> /\ s.kbd = m.kbd /\ RegsUnchangedExcept(s, {}) THEN {} ELSE {"trap-out"})
           [] vect = 34 ->      \* PUTS
-               (IF s.disp = m.disp \o PutsBytes(s, r0, 300) /\ s.kbd = m.kbd /\ RegsUnchangedExcept(s, {}) THEN {} ELSE {"trap-puts"})
+               (IF sdisp = m.disp \o PutsBytes(s, r0, 300) /\ s.kbd = m.kbd /\ RegsUnchangedExcept(s, {}) THEN {} ELSE {"trap-puts"})
           [] vect = 36 ->      \* PUTSP
-               (IF s.disp = m.disp \o PutspBytes(s, r0, 300) /\ s.kbd = m.kbd /\ RegsUnchangedExcept(s, {}) THEN {} ELSE {"trap-putsp"})
+               (IF sdisp = m.disp \o PutspBytes(s, r0, 300) /\ s.kbd = m.kbd /\ RegsUnchangedExcept(s, {}) THEN {} ELSE {"trap-putsp"})
           [] vect = 35 ->      \* IN: prompt, echo, R0
                (IF m.kbd # <<>> /\ s.reg[1] = Init16(Head(m.kbd)) /\ s.kbd = Tail(m.kbd)
-                   /\ s.disp = (m.disp \o PutsBytes(s, prompt_addr, 300)) \o <<Head(m.kbd)>>
+                   /\ sdisp = (m.disp \o PutsBytes(s, prompt_addr, 300)) \o <<Head(m.kbd)>>
                    /\ PutsBytes(s, prompt_addr, 300) # <<>>
                    /\ RegsUnchangedExcept(s, {0}) THEN {} ELSE {"trap-in"})
           [] OTHER -> {})
